@@ -460,7 +460,7 @@ func sanitizeTuplesWriteDelete(
 		if record != nil {
 			if opts.OnDuplicateInsert == storage.OnDuplicateInsertIgnore {
 				// need to validate against condition and context
-				if record.ConditionName == tk.GetCondition().GetName() && record.ConditionContext.String() == tk.GetCondition().GetContext().String() {
+				if record.ConditionName == tk.GetCondition().GetName() && sameConditionContext(record.ConditionContext, tk.GetCondition().GetContext()) {
 					duplicateWrites = append(duplicateWrites, i)
 					continue
 				}
@@ -470,6 +470,15 @@ func sanitizeTuplesWriteDelete(
 		}
 	}
 	return duplicateDeletes, duplicateWrites, nil
+}
+
+// sameConditionContext compares two condition contexts. A missing context and a context without
+// fields are the same thing: both are stored, and read back, as an empty struct.
+func sameConditionContext(a, b *structpb.Struct) bool {
+	if len(a.GetFields()) == 0 && len(b.GetFields()) == 0 {
+		return true
+	}
+	return a.String() == b.String()
 }
 
 // find returns tuple if *storage.TupleRecord [*storage.TupleRecord] returns true.
